@@ -1813,19 +1813,33 @@ func patchCode(context *funcContext) { // {{{
 		curop := opGetOpCode(inst)
 		switch curop {
 		case OP_CLOSURE:
+			if reg := opGetArgA(inst); reg > maxreg {
+				maxreg = reg
+			}
 			pc += int(context.Proto.FunctionPrototypes[opGetArgBx(inst)].NumUpvalues)
 			moven = 0
 			continue
 		case OP_SETGLOBAL, OP_SETUPVAL, OP_EQ, OP_LT, OP_LE, OP_TEST,
-			OP_TAILCALL, OP_RETURN, OP_FORPREP, OP_FORLOOP, OP_TFORLOOP,
+			OP_TAILCALL, OP_RETURN, OP_FORPREP,
 			OP_SETLIST, OP_CLOSE:
 			/* nothing to do */
+		case OP_FORLOOP: // writes the loop variable R(A+3)
+			if reg := opGetArgA(inst) + 3; reg > maxreg {
+				maxreg = reg
+			}
+		case OP_TFORLOOP: // stages the call in R(A+3)..R(A+5), results go to R(A+3)..R(A+2+C)
+			if reg := opGetArgA(inst) + intMax(5, 2+opGetArgC(inst)); reg > maxreg {
+				maxreg = reg
+			}
 		case OP_CALL:
 			if reg := opGetArgA(inst) + opGetArgC(inst) - 2; reg > maxreg {
 				maxreg = reg
 			}
 		case OP_VARARG:
 			if reg := opGetArgA(inst) + opGetArgB(inst) - 1; reg > maxreg {
+				maxreg = reg
+			}
+			if reg := opGetArgA(inst); reg > maxreg { // open form (B == 0) writes from R(A)
 				maxreg = reg
 			}
 		case OP_SELF:
